@@ -172,6 +172,16 @@ func (v *VerifServer) Operator() *Operator   { return &Operator{srv: v.Srv, logg
 func (v *VerifServer) Session() *Session     { return &Session{srv: v.Srv, logger: v.Srv.logger} }
 func (v *VerifServer) Intention() *Intention { return &Intention{srv: v.Srv, logger: v.Srv.logger} }
 func (v *VerifServer) Catalog() *Catalog     { return &Catalog{srv: v.Srv, logger: v.Srv.logger} }
+func (v *VerifServer) Health() *Health       { return &Health{srv: v.Srv, logger: v.Srv.logger} }
+func (v *VerifServer) Internal() *Internal   { return &Internal{srv: v.Srv, logger: v.Srv.logger} }
+func (v *VerifServer) Coordinate() *Coordinate {
+	return &Coordinate{srv: v.Srv, logger: v.Srv.logger}
+}
+func (v *VerifServer) PreparedQuery() *PreparedQuery {
+	return &PreparedQuery{srv: v.Srv, logger: v.Srv.logger}
+}
+func (v *VerifServer) DiscoveryChain() *DiscoveryChain { return &DiscoveryChain{srv: v.Srv} }
+func (v *VerifServer) ConnectCA() *ConnectCA           { return &ConnectCA{srv: v.Srv, logger: v.Srv.logger} }
 
 // VerifKVS runs the real KVS read endpoints against the state held by an FSM.
 type VerifKVS struct {
